@@ -147,6 +147,7 @@ func unhx(s string) []byte {
 // run a decoder on an exact-capacity copy
 func runDec(d decoder, b []byte) callRes {
 	in := exact(b)
+	setCase("dec " + d.name + " " + hx(b))
 	return guard(func() (string, error) { return d.f(in) })
 }
 
